@@ -297,3 +297,63 @@ func PadMdat(seg []byte, lead, trail int) ([]byte, error) {
 	}
 	return out, nil
 }
+
+// DropSinf returns a copy of a file in which the protection scheme information box (sinf) of the sample entry of the
+// k-th trak (0-based) is removed, with all enclosing sizes repaired: a protected sample entry type without the box
+// that describes its protection (seen in damaged or hand-edited inits; the decoders must still agree on it).
+func DropSinf(data []byte, k int) ([]byte, error) {
+	units, err := ParseUnits(data)
+	if err != nil {
+		return nil, err
+	}
+	var moov *UNode
+	for _, u := range units {
+		if u.Type == "moov" {
+			moov = u
+		}
+	}
+	if moov == nil {
+		return nil, fmt.Errorf("variant: no moov")
+	}
+	var trak *UNode
+	n := 0
+	for _, c := range moov.Children {
+		if c.Type == "trak" {
+			if n == k {
+				trak = c
+			}
+			n++
+		}
+	}
+	cur := trak
+	for _, typ := range []string{"mdia", "minf", "stbl", "stsd"} {
+		if cur == nil {
+			break
+		}
+		var next *UNode
+		for _, c := range cur.Children {
+			if c.Type == typ {
+				next = c
+			}
+		}
+		cur = next
+	}
+	if cur == nil || len(cur.Children) == 0 {
+		return nil, fmt.Errorf("variant: no sample entry in trak %d", k)
+	}
+	entry := cur.Children[0]
+	kept := entry.Children[:0:0]
+	dropped := false
+	for _, c := range entry.Children {
+		if c.Type == "sinf" && !dropped {
+			dropped = true
+			continue
+		}
+		kept = append(kept, c)
+	}
+	if !dropped {
+		return nil, fmt.Errorf("variant: no sinf in trak %d", k)
+	}
+	entry.Children = kept
+	return Serialize(units, true), nil
+}
